@@ -8,7 +8,7 @@ from .. import callgraph as CG
 from .. import spec
 from ..loader import AnalysisError
 from ..sym import (C, NONE, Interp, State, contains, is_const, iter_events,
-                   kind, term_str, walk_term)
+                   kind, subst_fold, term_str, truth, walk_term)
 from .c11 import conformance_rules
 
 B = 'bus.Bus'
@@ -44,7 +44,8 @@ META = {
     'assumptions': ['transport.write preserves order'],
     'decided': ['D1 conformance of the bus path', 'D2 unique names',
                 'D3 true sender', 'D4 unicast is unicast',
-                'D5 match-rule lifecycle', 'D6 stub/skeleton agreement',
+                'D5 match-rule lifecycle (incl. RemoveMatch accounting when one '
+                'text was added several times)', 'D6 stub/skeleton agreement',
                 'D7 no deferral on the forwarding path'],
     'undecided': ['exactly-once / in-order delivery over histories',
                   'a broadcast reaches exactly the rule holders (C12 decides '
@@ -66,6 +67,9 @@ def run(ctx):
     rule_lifecycle(ctx)
     stub_skeleton(ctx)
     no_deferral(ctx)
+    from .c09 import per_instance_registries
+    per_instance_registries(ctx, 'C14.D2', ('bus',),
+                            'connections of the bus share one table')
     ctx.floor('C14.D1', 20)
     ctx.floor('C14.D2', 3)
     ctx.floor('C14.D3', 2)
@@ -297,6 +301,80 @@ def rule_lifecycle(ctx):
                     okr = True
     ctx.ob('C14.D5', B, 'RemoveMatch-removes-the-rule', okr,
            'RemoveMatch must remove the caller\'s rule from the router')
+    if rmf is not None:
+        removematch_accounting(ctx, rmf)
+
+
+def _is_rules_table(t):
+    return kind(t) == 'attr' and t[2] == 'matchRules'
+
+
+def removematch_accounting(ctx, rmf, rule_id='C14.D5'):
+    """The same rule text may be added several times: RemoveMatch takes ONE
+    router rule away per call, so the table entry for the text may only be
+    dropped on a path where the remaining id list is known to be empty (or
+    every id of it went to delMatch)."""
+    prog = ctx.prog
+    rule = ('param', rmf.params()[1])
+    n = 0
+    for p in Interp(prog, exc_edges=False).run(rmf):
+        if p.outcome == 'raise':
+            continue
+        calls = p.calls()
+        dels = [c for c in calls if kind(c[2]) in ('attr', 'bound') and
+                str(c[2][2]).endswith('delMatch')]
+        if not dels:
+            continue
+        # the id list: the value read out of the table for this rule text
+        lists = []
+        for c in calls:
+            if kind(c[2]) == 'attr' and _is_rules_table(c[2][1]) and \
+                    c[2][2] in ('get', 'pop', 'setdefault') and c[3] and \
+                    c[3][0] == rule:
+                lists.append(c)
+        for t in [x for c in dels for x in c[3]]:
+            for sub in walk_term(t):
+                if kind(sub) == 'sub' and _is_rules_table(sub[1]) and \
+                        sub[2] == rule and sub not in lists:
+                    lists.append(sub)
+        dropped = any(
+            ev[0] == 'delsub' and _is_rules_table(ev[1]) and ev[2] == rule
+            for ev in iter_events(p.trace)) or any(
+                kind(c[2]) == 'attr' and _is_rules_table(c[2][1]) and
+                c[2][2] == 'pop' and c[3] and c[3][0] == rule for c in calls)
+        in_loop = any(
+            ev[0] == 'loop' and any(ev[3] == L or contains(
+                ev[3], lambda x, L=L: x == L) for L in lists) and any(
+                    kind(c[2]) in ('attr', 'bound') and
+                    str(c[2][2]).endswith('delMatch')
+                    for bp in ev[4] for c in bp.calls())
+            for ev in p.trace)
+        n += 1
+        if not dropped:
+            continue
+        empty = False
+        for L in lists:
+            last = [pol for c, pol in p.cond if c == L]
+            if last and last[-1] is False:
+                empty = True
+            for c, pol in p.cond:
+                # len(L) == 0 / not len(L)
+                if contains(c, lambda x, L=L: x == L) and kind(c) in (
+                        'cmp', 'call') and 'len' in term_str(c):
+                    v = subst_fold(c, {('call', 'len', ('builtin', 'len'),
+                                        (L,), (), None): C(0)})
+                    if truth(v) is not None and truth(v) == pol:
+                        empty = True
+        ctx.ob(rule_id, rmf.qualname, 'entry-dropped-only-when-no-id-left',
+               empty or in_loop,
+               'RemoveMatch takes one router rule away, but on this path '
+               'the table entry for the rule text is dropped while ids may '
+               'remain in it: a text added twice can then be removed only '
+               'once, the second rule stays in the router for good (and is '
+               'not cleaned up on disconnect)')
+    if n == 0:
+        ctx.ob(rule_id, rmf.qualname, 'entry-dropped-only-when-no-id-left',
+               False, 'no path of RemoveMatch removes a router rule')
 
 
 def stub_skeleton(ctx):
